@@ -139,11 +139,10 @@ def step (s : St) (w : List String) : St × String :=
           let sp := match Flat.argv d sep with
             | some (n, d') => s!"ret={n} ; {toHex d'}"
             | none => s!"ret=MissingData ; {toHex d}"
-          let q := if m.quoteSplit sep then " | Q qsplit=1" else ""
           match m.argv sep with
-          | (m1, .ok n) => ({ m := some m1 }, s!"R ret={n}{tail m m1 (toString n)}{q} | S {sp}")
-          | (m1, .err e) => ({ m := some m1 }, s!"R ret={e.name}{tail m m1 (toString e.code)}{q} | S {sp}")
-          | (m1, x) => ({ m := some m1 }, s!"R ret={resCode x}{tail m m1 (resCode x)}{q} | S {sp}")
+          | (m1, .ok n) => ({ m := some m1 }, s!"R ret={n}{tail m m1 (toString n)} | S {sp}")
+          | (m1, .err e) => ({ m := some m1 }, s!"R ret={e.name}{tail m m1 (toString e.code)} | S {sp}")
+          | (m1, x) => ({ m := some m1 }, s!"R ret={resCode x}{tail m m1 (resCode x)} | S {sp}")
         | none => (s, "bad-op")
       | "args", [b] =>
         match parseByte b with
@@ -151,10 +150,9 @@ def step (s : St) (w : List String) : St × String :=
           let sp := match Flat.args d sep with
             | some (n, c) => s!"ret={n} out={toHex c} ; {toHex d}"
             | none => s!"ret=FAULT out=- ; {toHex d}"
-          let q := if Msg.argsSplit sep (m.length + 1) m then " | Q qsplit=1" else ""
           match m.arrayMessage sep with
-          | .ok (n, c) => (s, s!"R ret={n} out={toHex c}{tail m m (toString n)}{q} | S {sp}")
-          | x => (s, s!"R ret={resCode x} out=-{tail m m (resCode x)}{q} | S {sp}")
+          | .ok (n, c) => (s, s!"R ret={n} out={toHex c}{tail m m (toString n)} | S {sp}")
+          | x => (s, s!"R ret={resCode x} out=-{tail m m (resCode x)} | S {sp}")
         | none => (s, "bad-op")
       | "append", [h] =>
         match parseHex h with
